@@ -13,6 +13,16 @@ Tie (every run):
    the map's, records sorted and equal to the map's content, the four count views equal, bytes decode to
    the same records, LoadFromFile and the minimal reader of internal/core reproduce them.
  * all histories of length <= 3 (thorough: 4) over two names at capacity 1.
+ * in-place rewrites of ONE loaded handle: "w" = WriteAt with no reload (the history continues on the same
+   object), "P" = WriteToFile with no reload.  After every successful w / r / p / P the harness loads the
+   image at the object's loaded header address (P: the returned address) into a FRESH object and runs the
+   minimal reader of internal/core on it; both must reproduce the in-memory index (records, counts, header
+   fields).  This is gated here directly against the specification ("reproduced exactly by writing it out
+   and loading it back"), independently of the Coq model; the file bytes are compared with the model too.
+   Generated: handles written in place 2..6 times whose record count leaves and returns to the count at
+   load time (insert+w, delete+w / delete+w, insert+w with different names), update-only rewrites, mixes
+   of w / r / p / P, all four modes, node sizes 32..4096; and ALL histories of length 4 over
+   {insert a, insert b, delete a, delete b, w} after an initial store+load with 0, 1, 2 records.
  * LoadFromFile on corrupted / truncated images against Model.load_from and the Python decoder.
  * known finding: two distinct names with equal hash are confused (corpus/C14/collision.json).
 """
@@ -84,7 +94,8 @@ assert lookup3(b"Four score and seven years ago", 1) == 0xcd628161
 
 
 # ------------------------------------------------------------------ map oracle
-OPC = {"i": 0, "u": 1, "s": 2, "h": 3, "d": 4, "p": 5, "r": 6}
+OPC = {"i": 0, "u": 1, "s": 2, "h": 3, "d": 4, "p": 5, "r": 6, "w": 7, "P": 8}
+NONAME = "prwP"          # operations without a name: store+load, rewrite+load, write in place, store
 
 
 def capacity(ns):
@@ -96,10 +107,13 @@ def id7(v):
     return (v & ((1 << 64) - 1)).to_bytes(8, "little")[:7]
 
 
-def oracle_run(case):
-    """Expected result codes and final map (name bytes -> 7-byte id)."""
+def oracle_run(case, info=None):
+    """Expected result codes and final map (name bytes -> 7-byte id).
+    info (optional dict) receives: loaded (the final object was loaded from the file), clean (nothing was
+    modified since the last successful write of the object to its loaded addresses)."""
     cap = capacity(case["ns"])
     m, loaded, out = {}, False, []
+    clean = False
     for o in case["ops"]:
         k = o["o"]
         n = bytes.fromhex(o.get("n", ""))
@@ -124,8 +138,17 @@ def oracle_run(case):
                 out.append(0)
         elif k == "p":
             loaded = True; out.append(1)
-        elif k == "r":
+        elif k in "rw":
             out.append(1 if loaded else 0)
+        elif k == "P":
+            out.append(1)
+        else:
+            raise ValueError("unknown operation %r" % (k,))
+        if out[-1] == 1:
+            if k in "iud": clean = False
+            elif k == "p" or (k in "rw" and loaded): clean = True
+    if info is not None:
+        info["loaded"], info["clean"] = loaded, clean
     return out, m
 
 
@@ -197,13 +220,40 @@ def spec_check(case, g):
     bad = []
     if "panic" in g or "harness_error" in g:
         return ["implementation panicked / harness error: %s" % (g.get("panic") or g.get("harness_error"))]
-    exp, m = oracle_run(case)
+    info = {}
+    exp, m = oracle_run(case, info)
     got = go_codes(g["res"])
     for i, (e, x) in enumerate(zip(exp, got)):
         if e != x:
             o = case["ops"][i]
             bad.append("op %d (%s %s): result code %s, a map gives %s" % (i, o["o"], o.get("n", ""), x, e))
             break
+    # written out and loaded back: after every successful write the image in the file, read by a fresh
+    # LoadFromFile and by the minimal reader, must be the in-memory index
+    WR = {"w": "WriteAt in place (same handle, write #%d on it)", "r": "WriteAt in place + reload", "p": "WriteToFile + reload",
+          "P": "WriteToFile (same handle)"}
+    imgs, raws = g.get("img") or [""] * len(exp), g.get("rawimg") or [""] * len(exp)
+    nw = 0
+    for i, o in enumerate(case["ops"]):
+        k = o["o"]
+        if k in "pr": nw = 0
+        if k not in WR or exp[i] != 1 or got[i] != 1:
+            continue
+        if k == "w": nw += 1
+        what = WR[k] % nw if k == "w" else WR[k]
+        if imgs[i] != "same":
+            bad.append("op %d: after %s the index in the file is not the in-memory index: a fresh LoadFromFile at the loaded header address gives %s%s" % (
+                i, what, imgs[i] or "no answer", "".join(" (%s)" % d for d in (g.get("img_detail") or []) if d.startswith("%d:" % i))))
+            break
+        if raws[i] != "same":
+            bad.append("op %d: after %s the minimal reader of internal/core reads different records from the file than the in-memory index (%s)" % (i, what, raws[i] or "no answer"))
+            break
+    if info["loaded"] and "end_img" in g and info["clean"] and g["end_img"][:2] != ["same", "same"]:
+        bad.append("end of history, nothing modified since the last write: image at the loaded header address: LoadFromFile %s, minimal reader %s %s" % tuple(g["end_img"]))
+    if info["loaded"] and "endw_img" in g and g["endw_img"][:2] != ["same", "same"]:
+        bad.append("after the history, one more WriteAt of the final object (in place, same handle): image at the loaded header address: LoadFromFile %s, minimal reader %s %s" % tuple(g["endw_img"]))
+    if info["loaded"] != ("end_img" in g) and "state" in g and not bad:
+        bad.append("the object is %sloaded according to the history, the implementation says the opposite" % ("" if info["loaded"] else "not "))
     st = g["state"]
     recs = recs_of(st["recs"])
     if any(recs[i][0] > recs[i + 1][0] for i in range(len(recs) - 1)):
@@ -278,14 +328,14 @@ def gen_history(rng, ns, length, pool_size, fill_first=0, weights=None):
     while len(pool) < pool_size:
         n = gen_name(rng)
         if n not in pool: pool.append(n)
-    w = weights or dict(i=34, u=12, s=14, h=9, d=21, p=5, r=5)
+    w = weights or dict(i=33, u=12, s=13, h=8, d=21, p=4, r=3, w=5, P=1)
     kinds, ws = list(w), list(w.values())
     ops = []
     for j in range(fill_first):
         ops.append(dict(o="i", n=pool[j % pool_size].hex(), v=gen_value(rng)))
     while len(ops) < length:
         k = rng.choices(kinds, ws)[0]
-        if k in "pr":
+        if k in NONAME:
             ops.append(dict(o=k))
         else:
             o = dict(o=k, n=rng.choice(pool).hex())
@@ -302,7 +352,7 @@ def gen_history(rng, ns, length, pool_size, fill_first=0, weights=None):
 def addr_ok(case):
     """Theorem hypothesis addr_ok: every address the bump allocator hands out fits the offset size."""
     ns = 4096 if case["ns"] == 0 else case["ns"]
-    stores = sum(1 for o in case["ops"] if o["o"] == "p")
+    stores = sum(1 for o in case["ops"] if o["o"] in "pP")
     return 64 + stores * (ns + 30 + case["osz"]) <= 256 ** case["osz"]
 
 
@@ -322,6 +372,108 @@ def gen_enumerated(depth):
     for h in frontier:      # every shorter history is a prefix of one of these; the per-op results cover it
         cases.append(dict(ns=21, mode=modes[k % 4], thr=50, delay=(k // 4) % 2 == 1, osz=8, ops=h))
         k += 1
+    return cases
+
+
+NODE_STREAK = [32, 43, 54, 64, 64, 100, 128, 128, 256, 512]
+
+
+def gen_write_streak(rng, ns, mode, kind):
+    """One loaded handle that is written in place 2..6 times without a reload.
+    kind: updown (insert+w, delete+w), downup (delete+w, insert+w), updates, zigzag (count wanders and returns to the
+    count at load time), mixed (w / r / p / P interleaved with everything)."""
+    cap = capacity(ns)
+    pool = []
+    while len(pool) < cap + 4:
+        n = gen_name(rng)
+        if n not in pool: pool.append(n)
+    k0 = rng.randrange(1 if kind in ("downup", "updates") else 0, max(2, cap))     # records at load time, room for one more
+    k0 = min(k0, cap - 1) if kind != "updates" else min(k0, cap)
+    live, ops = [], []
+
+    def ins(n=None):
+        n = n if n is not None else rng.choice([x for x in pool if x not in live])
+        ops.append(dict(o="i", n=n.hex(), v=gen_value(rng))); live.append(n); return n
+
+    def dele(n=None):
+        n = n if n is not None else rng.choice(live)
+        ops.append(dict(o="d", n=n.hex())); live.remove(n); return n
+
+    def upd():
+        ops.append(dict(o="u", n=rng.choice(live).hex(), v=gen_value(rng)))
+
+    def look():
+        if rng.random() < 0.5:
+            ops.append(dict(o=rng.choice("sh"), n=rng.choice(pool).hex()))
+
+    for _ in range(k0): ins()
+    ops.append(dict(o="p"))
+    nwr = rng.randrange(2, 7)
+    if kind == "updown":
+        while nwr > 0:
+            x = ins(); ops.append(dict(o="w")); look()
+            dele(x if rng.random() < 0.4 or len(live) == 1 else rng.choice([y for y in live if y != x])); ops.append(dict(o="w")); look()
+            nwr -= 2
+    elif kind == "downup":
+        while nwr > 0:
+            y = dele(); ops.append(dict(o="w")); look()
+            ins(y if rng.random() < 0.3 else None); ops.append(dict(o="w")); look()
+            nwr -= 2
+    elif kind == "updates":
+        for _ in range(nwr):
+            upd(); ops.append(dict(o="w")); look()
+    elif kind == "zigzag":
+        written = 0
+        while written < nwr:
+            up = len(live) < cap and (not live or rng.random() < 0.5)
+            for _ in range(rng.randrange(1, 3)):
+                if up and len(live) < cap: ins()
+                elif not up and live: dele()
+            if rng.random() < 0.3 and live: upd()
+            ops.append(dict(o="w")); written += 1; look()
+        while len(live) > k0: dele()
+        while len(live) < k0: ins()
+        ops.append(dict(o="w"))
+    else:
+        written = 0
+        while written < nwr:
+            for _ in range(rng.randrange(0, 4)):
+                r = rng.random()
+                if r < 0.35 and len(live) < cap: ins()
+                elif r < 0.6 and live: dele()
+                elif r < 0.75 and live: upd()
+                elif r < 0.85: ops.append(dict(o="i", n=rng.choice(pool).hex(), v=gen_value(rng)))     # maybe refused
+                else: look()
+            k = rng.choices("wrpP", [60, 15, 12, 13])[0]
+            ops.append(dict(o=k)); written += k == "w"
+    if rng.random() < 0.4:
+        ops.append(dict(o=rng.choice("rwp")))
+    if rng.random() < 0.3 and live:
+        dele()                                      # ends dirty: the final WriteAt of the harness is then the check
+    case = dict(ns=ns, mode=mode, thr=rng.choice([0, 10, 50, 200, 500]), delay=rng.random() < 0.3,
+                osz=rng.choice([8, 8, 4, 2]), ops=ops)
+    if not addr_ok(case):
+        case["osz"] = 8
+    return case
+
+
+def gen_write_exhaustive(inits=(0, 1, 2), depth=4):
+    """ALL histories of length `depth` over {insert a, insert b, delete a, delete b, w} on a handle loaded with
+    0 / 1 / 2 records ({} / {a} / {a, b}); shorter histories are prefixes (every w is checked when it happens)."""
+    a, b = b"a".hex(), b"b".hex()
+    alpha = [dict(o="i", n=a, v=5), dict(o="i", n=b, v=6), dict(o="d", n=a), dict(o="d", n=b), dict(o="w")]
+    pre = {0: [], 1: [dict(o="i", n=a, v=1)], 2: [dict(o="i", n=a, v=1), dict(o="i", n=b, v=2)],
+           3: [dict(o="i", n=b"c".hex(), v=3)]}
+    frontier = [[]]
+    for _ in range(depth):
+        frontier = [h + [x] for h in frontier for x in alpha]
+    modes = ["off", "immediate", "lazy", "incremental"]
+    cases, k = [], 0
+    for init in inits:
+        for h in frontier:
+            cases.append(dict(ns=[43, 54, 64][k % 3], mode=modes[k % 4], thr=50, delay=(k // 4) % 2 == 1, osz=8,
+                              ops=pre[init] + [dict(o="p")] + h))
+            k += 1
     return cases
 
 
@@ -352,7 +504,7 @@ def coq_case(case, g, exp):
     ops = []
     for o in case["ops"]:
         n = o.get("n", "")
-        if o["o"] in "pr":
+        if o["o"] in NONAME:
             ops.append("(%d,0,0)" % OPC[o["o"]])
             continue
         if n not in idx:
@@ -436,9 +588,10 @@ def shrink(H, case, pred, limit=250):
 
 
 # ------------------------------------------------------------------ replay of one stored case
-def replay(ctx):
+def replay(ctx, path=None):
+    """check.py --replay: returns the list of violations reproduced (empty list = the stored case passes now)."""
     H = ctx.harness
-    r = json.load(open(ctx.replay))
+    r = json.load(open(path or ctx.replay))
     d = r.get("detail", {})
     case = d.get("failing_input") or d.get("case") or {}
     viol = []
@@ -450,6 +603,8 @@ def replay(ctx):
         code = coq_hist_codes([coq_case(case, g, exp)], "c14replay")[0] if "state" in g else -1
         print("replay: history of %d operations, node size %s, mode %s" % (len(case["ops"]), case["ns"], case["mode"]))
         print("  implementation results :", g.get("res"))
+        print("  image after each write :", g.get("img"), "minimal reader:", g.get("rawimg"), g.get("img_detail") or "")
+        print("  image at the end       :", g.get("end_img"), "after one more WriteAt:", g.get("endw_img"))
         print("  map oracle result codes:", exp)
         print("  implementation records :", g.get("state", {}).get("recs"), "nroot/total:", g.get("state", {}).get("nroot"), g.get("state", {}).get("total"))
         print("  specification verdict  :", bad or "holds")
@@ -473,19 +628,26 @@ def replay(ctx):
             viol.append(dict(what="LoadFromFile verdict differs from the format", failing_input=case))
     else:
         print("replay: no case found in", ctx.replay)
-    return dict(violations=viol, known=[], coverage=dict(evaluations=1, distinct_nontrivial=1, rule="replay of one stored case", samples=[case]))
+    for v in viol:
+        print("VIOLATION (replayed):", v["what"])
+    return viol
 
 
 # ------------------------------------------------------------------ the check
 def run(ctx):
     if getattr(ctx, "replay", None):
-        return replay(ctx)
+        v = replay(ctx)
+        return dict(violations=v, known=[], coverage=dict(evaluations=1, distinct_nontrivial=1, rule="replay of one stored case", samples=[]))
     H, rng, tier = ctx.harness, ctx.rng, ctx.tier
     viol, known = [], []
     t0 = time.time()
     dist = dict(modes={}, node_sizes={}, ops={}, results={}, lengths=[], capacity_refusals=0, duplicate_refusals=0,
                 update_hit=0, update_miss=0, delete_hit=0, delete_miss=0, search_hit=0, search_miss=0,
-                stores=0, rewrites=0, rewrite_refused=0, max_records_seen=0, full_nodes=0)
+                stores=0, rewrites=0, rewrite_refused=0, max_records_seen=0, full_nodes=0,
+                writes_in_place=0, write_in_place_refused=0, stores_same_object=0,
+                image_checks=0, end_image_checks=0, final_writeat_checks=0,
+                handles_written_in_place_twice_or_more=0, max_writes_in_place_on_one_handle=0,
+                writes_with_count_back_at_loaded_count=0, update_only_rewrites=0)
 
     # ---------------------------------------------------------------- hash
     keys = gen_hash_keys(rng, tier)
@@ -531,9 +693,21 @@ def run(ctx):
         ns = [4096, 0, 4096, 4097][j % 4]
         cases.append(gen_history(rng, ns, 450, 371 + rng.choice([2, 9, 30]), fill_first=[365, 375, 0, 371][j % 4],
                                  weights=dict(i=40, u=12, s=12, h=8, d=22, p=3, r=3)))
+    # one loaded handle written in place several times (no reload between the writes)
+    kinds = ["updown", "downup", "updates", "zigzag", "mixed", "mixed"]
+    nstreak = 240 if tier == "quick" else 3000
+    for j in range(nstreak):
+        ns = 4096 if j % 97 == 96 else NODE_STREAK[(j // 24) % len(NODE_STREAK)] if tier == "quick" else rng.choice(NODE_STREAK)
+        cases.append(gen_write_streak(rng, ns, ["off", "immediate", "lazy", "incremental"][j % 4], kinds[(j // 4) % 6]))
     ngen = len(cases)
     enum = gen_enumerated(3 if tier == "quick" else 4)
     cases += enum
+    wex = gen_write_exhaustive((0, 1, 2) if tier == "quick" else (0, 1, 2, 3), 4)
+    wex_first = len(cases)
+    cases += wex
+    # quick tier: every one of them is run and judged by the specification; the Coq model is evaluated on those
+    # with two or more writes and a sample of the rest
+    wex_in_coq = set(i for i, c in enumerate(wex) if tier != "quick" or sum(o["o"] == "w" for o in c["ops"]) >= 2 or rng.random() < 0.12)
     # corpus: shrunk cases from earlier findings (run first in the report, same treatment)
     cdir = os.path.join(vlib.VERIF, "corpus", "C14")
     corpus = []
@@ -541,6 +715,7 @@ def run(ctx):
         if fn.startswith("case-") and fn.endswith(".json"):
             corpus.append(json.load(open(os.path.join(cdir, fn)))["case"])
     cases = corpus + cases
+    wex_first += len(corpus)
 
     # ---------------------------------------------------------------- run Go
     gos = vlib.run_harness_parallel(H, "c14", cases)
@@ -566,12 +741,15 @@ def run(ctx):
             g2 = vlib.run_harness(H, "c14", [small])[0]
             viol.append(dict(what="B-tree v2 index violates the map specification: " + (spec_check(small, g2) or bad)[0],
                              failing_input=small, all_violations=spec_check(small, g2) or bad,
-                             impl=dict(res=g2.get("res"), state={k: v for k, v in g2.get("state", {}).items() if k not in ("hdr", "leaf")} if "state" in g2 else g2,
+                             impl=dict(res=g2.get("res"), img=g2.get("img"), rawimg=g2.get("rawimg"), img_detail=g2.get("img_detail"),
+                                       end_img=g2.get("end_img"), endw_img=g2.get("endw_img"), state={k: v for k, v in g2.get("state", {}).items() if k not in ("hdr", "leaf")} if "state" in g2 else g2,
                                        errs=g2.get("errs")),
                              spec=dict(expected_result_codes=oracle_run(small)[0])))
             if len(viol) >= 6: break
             continue
-        exp, m = oracle_run(case)
+        info_c = {}
+        exp, m = oracle_run(case, info_c)
+        hload, hwrites, hdiff, hdirty = 0, 0, False, set()
         # statistics (only meaningful when the implementation agrees with the map)
         dist["modes"][case["mode"]] = dist["modes"].get(case["mode"], 0) + 1
         dist["node_sizes"][str(case["ns"])] = dist["node_sizes"].get(str(case["ns"]), 0) + 1
@@ -594,7 +772,27 @@ def run(ctx):
             elif o["o"] == "s": dist["search_hit" if e != 2 else "search_miss"] += 1
             elif o["o"] == "p": dist["stores"] += 1
             elif o["o"] == "r": dist["rewrites" if e else "rewrite_refused"] += 1
+            elif o["o"] == "w": dist["writes_in_place" if e else "write_in_place_refused"] += 1
+            elif o["o"] == "P": dist["stores_same_object"] += 1
             dist["max_records_seen"] = max(dist["max_records_seen"], len(live))
+            # handle statistics: writes in place on one loaded object
+            if e == 1 and o["o"] in "iud": hdirty.add(o["o"])
+            if e == 1 and o["o"] in "pr":
+                hload, hwrites, hdiff = len(live), 0, False
+                hdirty.clear()
+            if e == 1 and o["o"] == "w":
+                hwrites += 1
+                if hwrites == 2: dist["handles_written_in_place_twice_or_more"] += 1
+                dist["max_writes_in_place_on_one_handle"] = max(dist["max_writes_in_place_on_one_handle"], hwrites)
+                if len(live) != hload: hdiff = True
+                elif hdiff: dist["writes_with_count_back_at_loaded_count"] += 1
+                if hdirty == {"u"}: dist["update_only_rewrites"] += 1
+                hdirty.clear()
+        dist["image_checks"] += sum(1 for x in (g.get("img") or []) if x)
+        dist["end_image_checks"] += 1 if "end_img" in g and info_c["clean"] else 0
+        dist["final_writeat_checks"] += 1 if "endw_img" in g else 0
+        if wex_first <= ci < wex_first + len(wex) and (ci - wex_first) not in wex_in_coq:
+            continue                        # judged by the specification above; not sent to the Coq model in this tier
         coq_items.append(coq_case(case, g, exp))
         # measured: ~63 us per character of the literal (elaboration), ~(1.8 + 0.02*capacity) ms per operation
         coq_cost.append(63 * len(coq_items[-1]) + len(case["ops"]) * (1800 + 20 * min(capacity(case["ns"]), 400)))
@@ -731,7 +929,9 @@ def run(ctx):
         distinct_nontrivial=len(distinct) + len(set(keys)),
         rule="a history counts once per distinct (node size, mode, operation list); it is non-trivial because every history performs at least one insert/update/delete/store "
              "and its per-operation results, final records, counts, bytes and reload are all compared; hash inputs count once per distinct byte string",
-        histories=dict(total=len(coq_items), generated=ngen, enumerated=len(enum), corpus=len(corpus), operations=nops,
+        histories=dict(total=len(distinct), evaluated_by_the_coq_model=len(coq_items), generated=ngen, of_which_in_place_write_streaks=nstreak,
+                       enumerated=len(enum), enumerated_in_place_writes=len(wex), enumerated_in_place_writes_in_coq=len(wex_in_coq),
+                       corpus=len(corpus), operations=nops,
                        length_min=lens[0], length_median=lens[len(lens) // 2], length_max=lens[-1],
                        skipped_because_names_collide=skipped_collision, **dist),
         hash=dict(keys=len(keys), distinct=len(set(keys)), compared_with_python_lookup3=len(keys), evaluated_in_coq=len(pick),
@@ -743,6 +943,7 @@ def run(ctx):
         samples=[dict(case=dict(cases[coq_idx[i]], ops=cases[coq_idx[i]]["ops"][:6]), res=gos[coq_idx[i]]["res"][:6]) for i in range(min(3, len(coq_idx)))],
         programs=len(coq_items), disagreements_checked=len(coq_items) + len(pick) + len(load_items),
         model_evaluations_in_coq=len(coq_items) + len(pick) + len(load_items),
-        timing=dict(go_s=round(t_go, 1), coq_s=round(t_coq, 1), coq_jobs=len(JOB_TIMES), coq_job_max_s=max(JOB_TIMES.values() or [0])),
+        timing=dict(go_s=round(t_go, 1), coq_s=round(t_coq, 1), coq_jobs=len(JOB_TIMES), coq_job_max_s=max(JOB_TIMES.values() or [0]),
+                    coq_cpu_estimate_s=round(total_cost / 1e6, 1), coq_job_times_s=sorted(JOB_TIMES.values())),
         exhaustive=False)
     return dict(violations=viol, known=known, coverage=cov)
